@@ -87,8 +87,9 @@ static string comments_out(const string& s) {
   } catch (const runtime_error&) {
     threw = true;
   }
-  // the throwing form must throw exactly when the comment is left open
-  return "[" + js(a) + "," + (threw ? "1" : "0") + "]";
+  // the throwing form must throw exactly when the comment is left open; the string it worked on is afterwards either
+  // completely stripped or (after the exception) untouched - never a half-written mixture
+  return "[" + js(a) + "," + (threw ? "1" : "0") + "," + (b == s ? "1" : "0") + "," + (b == a ? "1" : "0") + "]";
 }
 
 static void all_helpers_here(const vector<string>& strs, const string& alphabet, bool big) {
